@@ -31,6 +31,8 @@ def run(ctx, report):
     report.section("WebVTT nesting", webvtt_nesting, ctx, report)
     report.section("SCC italics pipeline", scc_pipeline, ctx, report)
     report.section("purity", purity, ctx, report)
+    from . import markup_writer_fold
+    report.section("written documents", markup_writer_fold.run, ctx, report, {"italics": ("R-DOC-STYLE", "1")})
     report.not_decided += ["that the same characters are italic / bold / underlined after a round trip",
                            "spans across breaks and layout groups"]
 
